@@ -491,6 +491,10 @@ pub fn eval_case<C: Serialize>(
     stats: Option<&mut Stats>,
 ) -> CheckResult {
     let mut ctx = Ctx::default();
+    if std::env::var("VERIF_TRACE_CASES").is_ok() {
+        // debugging aid for hangs: the last line of the log is the case that did not return
+        eprintln!("CASE[{:?}] {}", std::thread::current().id(), serde_json::to_string(case).unwrap_or_default());
+    }
     let r = match catch(|| check(case, &mut ctx)) {
         Ok(r) => r,
         Err(p) => Err(format!("panic: {p}")),
